@@ -18,7 +18,7 @@ rm -f $W/$PKG/zz_demo_test.go
 timeout 1500 go test -count=1 ./$PKG/ > /tmp/seed_$ID.pkg.log 2>&1; RP=$?
 echo "demo with patch exit=$RW (want !=0), without exit=$RWO (want 0), package tests with patch exit=$RP (want 0)"
 if [ $RW -ne 0 ] && [ $RWO -eq 0 ] && [ $RP -eq 0 ]; then
-  mkdir -p /verif/seeded/$ID && cp $O/patch.diff $O/demo_test.go $O/meta.json /verif/seeded/$ID/ && echo CONFIRMED
+  D=${SEED_NAME:-$ID}; mkdir -p /verif/seeded/$D && cp $O/patch.diff $O/demo_test.go $O/meta.json /verif/seeded/$D/ && echo CONFIRMED
 else
   echo NOT-CONFIRMED; for f in with without pkg; do echo "-- $f"; tail -n 5 /tmp/seed_$ID.$f.log; done
 fi
